@@ -570,6 +570,12 @@ def attr_root_chain(t: ast.AST) -> List[str]:
     return list(reversed(chain))
 
 
+def _store_root(t: ast.AST) -> ast.AST:
+    while isinstance(t, (ast.Subscript, ast.Attribute)):
+        t = t.value
+    return t
+
+
 def template_kind(s: str) -> str:
     """Record kind = constant prefix up to the first ';' or '(' (e.g. 'A', 'W', 'B;Aspirate')."""
     if s.startswith("B;") and "(" in s:
@@ -597,6 +603,68 @@ class Effects:
     """Direct and transitive effect summaries; `self` receiver resolved for a given concrete class."""
 
     WRITE_ATTRS = {"_volumes": "VOLWRITE", "_composition": "COMPWRITE", "_history": "HISTWRITE", "_labels": "HISTWRITE"}
+
+    # public properties that return the live container (Labware.composition returns self._composition itself)
+    LIVE_PROPERTIES = {"composition": "COMPWRITE"}
+
+    def tracked_aliases(self, fv: FV) -> Dict[str, str]:
+        """Local names bound (anywhere in the function) to a tracked container or to one of its inner arrays without
+        a copy:  x = self._composition[k];  for x in self._composition.values();  for k, x in self.composition.items()."""
+        cached = getattr(fv, "_tracked_aliases", None)
+        if cached is not None:
+            return cached
+        out: Dict[str, str] = {}
+        attrs = dict(self.WRITE_ATTRS)
+        attrs.update(self.LIVE_PROPERTIES)
+
+        def live_kind(v: ast.AST) -> Optional[str]:
+            # walk down subscripts / attribute loads / .values() .items() .get() calls; any other call is a copy or a new value
+            cur = v
+            while True:
+                if isinstance(cur, ast.Subscript):
+                    cur = cur.value
+                elif isinstance(cur, ast.Attribute):
+                    if cur.attr in attrs:
+                        return attrs[cur.attr]
+                    cur = cur.value
+                elif isinstance(cur, ast.Call) and isinstance(cur.func, ast.Attribute) and cur.func.attr in ("values", "items", "get", "setdefault") :
+                    cur = cur.func.value
+                elif isinstance(cur, ast.Name):
+                    return out.get(cur.id)
+                else:
+                    return None
+
+        changed = True
+        rounds = 0
+        while changed and rounds < 4:
+            changed = False
+            rounds += 1
+            for n in fv.cfg.nodes:
+                a = n.ast
+                pairs: List[Tuple[ast.AST, ast.AST]] = []
+                if n.kind == "stmt" and isinstance(a, ast.Assign):
+                    pairs = [(t, a.value) for t in a.targets]
+                elif n.kind == "stmt" and isinstance(a, ast.AnnAssign) and a.value is not None:
+                    pairs = [(a.target, a.value)]
+                elif n.kind == "for":
+                    pairs = [(a.target, a.iter)]
+                for tgt, val in pairs:
+                    k = live_kind(val)
+                    if k is None:
+                        continue
+                    names = [tgt] if isinstance(tgt, ast.Name) else [e for e in getattr(tgt, "elts", []) if isinstance(e, ast.Name)]
+                    if n.kind == "for" and isinstance(val, ast.Call) and isinstance(val.func, ast.Attribute) and val.func.attr == "items" and len(names) == 2:
+                        names = names[1:]  # the key of a dict is not an alias of its arrays
+                    elif n.kind == "for" and not (isinstance(val, ast.Call) and isinstance(val.func, ast.Attribute) and val.func.attr in ("values", "items")):
+                        # iterating an array yields scalars; iterating the dict yields keys
+                        if k in ("VOLWRITE", "COMPWRITE") :
+                            continue
+                    for nm in names:
+                        if out.get(nm.id) != k:
+                            out[nm.id] = k
+                            changed = True
+        fv._tracked_aliases = out  # type: ignore[attr-defined]
+        return out
 
     def __init__(self, prog: Program):
         self.prog = prog
@@ -630,11 +698,19 @@ class Effects:
             flat: List[ast.AST] = []
             for t in targets:
                 flat += list(t.elts) if isinstance(t, (ast.Tuple, ast.List)) else [t]
+            aliases = self.tracked_aliases(fv)
             for t in flat:
                 chain = attr_root_chain(t)
                 for attr, kind in self.WRITE_ATTRS.items():
                     if attr in chain[1:]:
                         out.add(Effect(kind, "rebind" if isinstance(t, ast.Attribute) and t.attr == attr else "element"))
+                # element store through the live-dict property or through a local alias of a tracked container
+                if isinstance(t, ast.Subscript):
+                    for attr, kind in self.LIVE_PROPERTIES.items():
+                        if attr in chain[1:]:
+                            out.add(Effect(kind, "element"))
+                    if chain and chain[0] in aliases and isinstance(_store_root(t), ast.Name):
+                        out.add(Effect(aliases[chain[0]], "element"))
             if isinstance(a, ast.Raise):
                 out.add(Effect("RAISE", self._exc_name(fv, a)))
         if n.kind == "assert_fail":
@@ -651,6 +727,12 @@ class Effects:
                         for attr, kind in self.WRITE_ATTRS.items():
                             if attr in chain[1:] or (chain and chain[-1] == attr):
                                 out.add(Effect(kind, fn.attr))
+                        for attr, kind in self.LIVE_PROPERTIES.items():
+                            if attr in chain[1:]:
+                                out.add(Effect(kind, fn.attr))
+                        al = self.tracked_aliases(fv)
+                        if chain and chain[0] in al and fn.attr != "remove":
+                            out.add(Effect(al[chain[0]], fn.attr))
                     # worklist emission:  self.append(<template>)
                     if fn.attr in ("append", "extend", "insert", "__iadd__") and isinstance(fn.value, ast.Name):
                         c = fv.env.get(fn.value.id)
